@@ -162,7 +162,7 @@ FUNC_SYNONYM = {
     "numpy.around": "round", "numpy.round_": "round",
     "numpy.log": "log", "math.log": "log", "numpy.exp": "exp", "math.exp": "exp", "len": "len",
     "numpy.multiply": "*", "numpy.divide": "/", "numpy.true_divide": "/", "numpy.subtract": "-", "numpy.add": "+",
-    "numpy.negative": "neg", "float": "id", "int": "int", "numpy.float64": "id", "numpy.asarray": "id",
+    "numpy.negative": "neg", "float": "id", "int": "int", "numpy.float64": "id", "numpy.asarray": "id", "numpy.copy": "id", "copy.copy": "id", "copy.deepcopy": "id",
     "typing.cast": "cast", "cast": "cast", "numpy.square": "sq",
     "numpy.sqrt": "sqrt", "math.sqrt": "sqrt", "numpy.power": "pow", "pow": "pow", "math.pow": "pow",
 }
@@ -334,6 +334,8 @@ class Normaliser:
         kws = {k.arg: k.value for k in e.keywords if k.arg}
         name = None
         d = dotted(fn)
+        if isinstance(fn, ast.Attribute) and fn.attr == "copy" and not args and not kws and not (d or "").startswith(("np.", "numpy.", "copy.")):
+            return self.rat(fn.value)       # a copy has the value of what it copies
         if d is not None and isinstance(fn, ast.Attribute) and d.split(".")[0] in self.env and d.split(".")[0] not in self._active and d.count(".") == 1 \
                 and fn.attr not in METHOD_SYNONYM:
             # method call on an inlinable local: `rv.rvs(...)` with rv = ctor(...)  ->  `ctor(...).rvs(...)`
